@@ -266,9 +266,9 @@ def operations(draw):
         args = [draw(arg_values()) for _ in range(FNS[fn])]
         return ('eval', fn + '(' + ';'.join(arg_text(a) for a in args) + ')')
     if kind == 'sym':
-        return ('sym', draw(st.sampled_from(DATA + list(FNS))))
+        return ('sym', draw(st.sampled_from(DATA + list(FNS) + ['flex'] * 4)))     # flex is the name that gets rebound
     if kind in ('call', 'proxy'):
-        fn = draw(st.sampled_from(list(FNS)))
+        fn = draw(st.sampled_from(list(FNS) + ['flex'] * 4))
         arity = FNS[fn]
         if fn == 'flex':
             arity = 3       # cut to the arity flex has at that point of the sequence when it runs
